@@ -11,7 +11,7 @@ from collections.abc import Callable
 import logging
 
 from xknx.exceptions import CommunicationError, CouldNotParseKNXIP, IncompleteKNXIPFrame
-from xknx.knxip import HPAI, HostProtocol, KNXIPFrame
+from xknx.knxip import HPAI, HostProtocol, KNXIPFrame, KNXIPHeader
 
 from .ip_transport import KNXIPTransport
 
@@ -103,6 +103,8 @@ class TCPTransport(KNXIPTransport):
                 couldnotparseknxip.description,
                 raw.hex(),
             )
+            # skip the malformed frame if its header announces a usable length
+            next_frame_part = self._skip_malformed_frame(raw)
         else:
             knx_logger.debug(
                 "Received from %s: %s",
@@ -113,6 +115,15 @@ class TCPTransport(KNXIPTransport):
         # parse data after current KNX/IP frame
         if next_frame_part:
             self.data_received_callback(next_frame_part)
+
+    @staticmethod
+    def _skip_malformed_frame(raw: bytes) -> bytes:
+        """Return the data following a malformed frame whose header length is readable."""
+        if len(raw) >= KNXIPHeader.HEADERLENGTH and raw[0] == KNXIPHeader.HEADERLENGTH:
+            total_length = raw[4] * 256 + raw[5]
+            if total_length >= KNXIPHeader.HEADERLENGTH:
+                return raw[total_length:]
+        return b""
 
     async def connect(self) -> None:
         """Connect TCP socket."""
